@@ -33,15 +33,15 @@ variable (Signed : Key → Obj LName → Prop)
 /-- **allowed_iff_schema_link.** The validator's signing check on one link is the C12 characterisation. -/
 theorem allowed_iff_schema_link (I : Inst) (hs : Lvs.sanityCheck I.model = .ok ()) (hv : Lvs.VDet I.model)
     (henv : Lvs.EnvTotal I.fns) (pkt key : LName) :
-    I.env.allowed pkt key = true ↔ SchemaLink I.model (Lvs.pureOf I.fns) pkt key := by
-  show lvsAllowed I.model I.fns pkt key = true ↔ _
+    I.env.allowed pkt key = .ok true ↔ SchemaLink I.model (Lvs.pureOf I.fns) pkt key := by
+  show lvsAllowed I.model I.fns pkt key = .ok true ↔ _
   rw [lvsAllowed_eq_true]
   exact Ndn.C12.check_iff I.model (sane_of_sanityCheck hs) hv I.fns henv pkt key
 
 /-- one direction needs neither `VDet` nor anything about the user functions (raising or missing
     functions are read as false in `pureOf`) -/
 theorem allowed_schema_link (I : Inst) (hs : Lvs.sanityCheck I.model = .ok ()) (pkt key : LName)
-    (h : I.env.allowed pkt key = true) : SchemaLink I.model (Lvs.pureOf I.fns) pkt key :=
+    (h : I.env.allowed pkt key = .ok true) : SchemaLink I.model (Lvs.pureOf I.fns) pkt key :=
   Ndn.C12.check_true_sound I.model (sane_of_sanityCheck hs) I.fns pkt key
     ((lvsAllowed_eq_true _ _ _ _).mp h)
 
@@ -108,6 +108,35 @@ theorem system_verdict_iff_chain_lvs (insts : Nat → Inst)
   rw [other_instances_irrelevant] at e'
   exact verdict_iff_chain_lvs Signed (insts i) (hs i) (hv i) (henv i) (hu i) (hc i) fuel _ o
     (runHist_inv (insts i).env Signed (hu i) _ [] (cacheInv_nil _ _)) v e'
+
+/-! ### a signing check that raises -/
+
+/-- **check_raise_is_verdict_lvs.** If `Checker.check(name, key locator)` raises, the validation raises that
+    exception (class mapped by `pyOfLvs`): the packet is neither accepted nor refused, no certificate is
+    fetched, nothing is cached. -/
+theorem check_raise_is_verdict_lvs (I : Inst) (fuel : Nat) (st : Cache LName) (o : Obj LName) (kn : LName)
+    (e : Lvs.LvsErr) (hk : o.keyLoc = some kn) (h : Lvs.check I.model I.fns o.name kn = .error e) :
+    validate I.env (fuel + 1) st o = ⟨some (.raise (pyOfLvs e)), st, []⟩ :=
+  check_raise_reaches_caller I.env fuel st o kn _ hk
+    ((lvsAllowed_error I.model I.fns o.name kn _).mpr ⟨e, h, rfl⟩)
+
+/-- **empty_name_raises_lvs.** A Data with the empty name and a key locator name: `name[-1]` raises
+    `IndexError` inside `Checker.check`, and that is what the validator raises — for every schema. -/
+theorem empty_name_raises_lvs (I : Inst) (fuel : Nat) (st : Cache LName) (o : Obj LName) (kn : LName)
+    (hk : o.keyLoc = some kn) (hn : o.name = []) :
+    validate I.env (fuel + 1) st o = ⟨some (.raise .indexError), st, []⟩ := by
+  have h : Lvs.check I.model I.fns o.name kn = .error .indexError := by rw [hn]; rfl
+  exact check_raise_is_verdict_lvs I fuel st o kn .indexError hk h
+
+/-- **link_check_total_lvs.** On a loader-accepted model with deterministic value edges and user functions
+    that are defined and do not raise, the signing check of a link between two non-empty, well-formed names
+    answers without raising: with such schemas and names a `raise` verdict can only be the `ValueError` of a
+    key importer (`Ndn.C14.raise_has_cause`). -/
+theorem link_check_total_lvs (I : Inst) (hs : Lvs.sanityCheck I.model = .ok ()) (hv : Lvs.VDet I.model)
+    (henv : Lvs.EnvTotal I.fns) (pkt key p k : LName) (hp : Lvs.dropDigest pkt = some p)
+    (hk : Lvs.dropDigest key = some k) : ∃ b, I.env.allowed pkt key = .ok b := by
+  obtain ⟨b, hb⟩ := Ndn.C12.check_total I.model (sane_of_sanityCheck hs) hv I.fns henv pkt key p k hp hk
+  exact ⟨b, by show lvsAllowed I.model I.fns pkt key = .ok b; unfold lvsAllowed; rw [hb]⟩
 
 /-- **lvs_chain_keys_matched.** On *every* chain of schema links, every key name (each certificate and the
     anchor) matches some node of the schema. -/
@@ -237,7 +266,7 @@ def pktDB : Obj LName := ⟨[cD, cB], some [cK, cA], .ecdsa, some 30, none⟩
 def pktStray : Obj LName := ⟨[cD, cA], some [cA], .ecdsa, some 30, none⟩
 
 def I : Inst :=
-  ⟨schema, allFns, gc, fun n => if n = [cK, cA] then some (.data certKA) else none, [cR], ⟨.ec, 10⟩⟩
+  ⟨schema, allFns, gc, fun i => if i.name = [cK, cA] then some (.data certKA) else none, [cR], ⟨.ec, 10⟩⟩
 
 theorem s1 : Lvs.sanityCheck schema = .ok () := by rfl
 theorem s2 : Lvs.VDet schema := vdet_of_vdetB (by decide)
@@ -250,8 +279,8 @@ theorem gcor : Correct I.env GS := by
 /-- the explicit two-link chain  /d/a — /k/a — /r -/
 theorem chainDA : LvsChain I GS [[cK, cA], [cR]] pktDA :=
   .step pktDA [cK, cA] certKA ⟨.ec, 30⟩ [[cR]] rfl (by decide)
-    ((allowed_iff_schema_link I s1 s2 s3 _ _).mp (by decide)) rfl rfl rfl ⟨rfl, rfl⟩
-    (.anchor certKA rfl ((allowed_iff_schema_link I s1 s2 s3 _ _).mp (by decide)) ⟨rfl, rfl⟩)
+    ((allowed_iff_schema_link I s1 s2 s3 _ _).mp (by rfl)) rfl rfl rfl ⟨rfl, rfl⟩
+    (.anchor certKA rfl ((allowed_iff_schema_link I s1 s2 s3 _ _).mp (by rfl)) ⟨rfl, rfl⟩)
 
 /-- complete / sound / iff on the instance -/
 example : (validate I.env 2 [] pktDA).verdict = some .accept :=
@@ -277,6 +306,13 @@ example (h : List (Nat × Nat × Obj LName)) (f : Nat) (v : Verdict)
   have hr : (validate I.env 2 [] pktDB).verdict = some .reject := by decide
   have := (verdict_iff_chain_lvs GS I s1 s2 s3 gu gcor 2 [] pktDB (cacheInv_nil _ _) .reject hr).mpr hch
   cases this
+
+/-- a Data with the empty name that names `/k/a`: the validator raises IndexError -/
+example : validate I.env 2 [] ⟨[], some [cK, cA], .ecdsa, some 30, none⟩ = ⟨some (.raise .indexError), [], []⟩ :=
+  empty_name_raises_lvs I 1 [] _ [cK, cA] rfl rfl
+
+example : ∃ b, I.env.allowed [cD, cA] [cK, cA] = .ok b :=
+  link_check_total_lvs I s1 s2 s3 _ _ [cD, cA] [cK, cA] (by decide) (by decide)
 
 /-- the accepted chain passes only through keys that match a rule -/
 example : ∃ l, LvsChain I GS l pktDA ∧ pktDA.keyLoc = l.head? ∧
